@@ -21,10 +21,23 @@ static void obs_deque(const char *name, int k, CC_Deque *d) {
     o_end();
 }
 
-/* phys: private fields; dead slots print as `_` (the first buffer is malloc'ed, not calloc'ed) */
-static void phys_deque(const char *name, int k, CC_Deque *d) {
-    o(" %s%d.size=%zu %s%d.cap=%zu %s%d.first=%zu %s%d.last=%zu %s%d.buf=[", name, k, d->size, name, k, d->capacity,
+/* phys: private fields; dead slots print as `_` (the first buffer is malloc'ed, not calloc'ed).
+ * `phys=quiet` sessions (long `scale` histories with buffers of thousands of slots) print a 64-bit FNV-1a style
+ * checksum of the slots instead (`buf=#<decimal>`; per slot: mix 1 and the value if live, mix 0 if dead) and the
+ * full dump only on `observe`; the Lean drivers compute the same number. */
+static void phys_deque(const char *name, int k, CC_Deque *d, bool full) {
+    o(" %s%d.size=%zu %s%d.cap=%zu %s%d.first=%zu %s%d.last=%zu %s%d.buf=", name, k, d->size, name, k, d->capacity,
       name, k, d->first, name, k, d->last, name, k);
+    if (!full) {
+        uint64_t h = 0xcbf29ce484222325ULL; const uint64_t P = 0x100000001b3ULL;
+        for (size_t j = 0; j < d->capacity; j++) {
+            bool live = ((j - d->first) & (d->capacity - 1)) < d->size;
+            if (live) { h ^= 1; h *= P; h ^= (uint64_t)VAL(d->buffer[j]); h *= P; } else { h *= P; }
+        }
+        o("#%llu", (unsigned long long)h);
+        return;
+    }
+    o("[");
     for (size_t j = 0; j < d->capacity; j++) {
         bool live = ((j - d->first) & (d->capacity - 1)) < d->size;
         if (j) o(",");
